@@ -44,6 +44,7 @@ class Types : Base {
     string s1; uint8 n; sint16 arr[]; datetime d; boolean b; real32 r;
     char16 c; uint64 big;
     [EmbeddedInstance("Base")] string e;
+    [EmbeddedInstance("Base")] string ea[];
 };
 [Association] class Link { [Key] Base REF a; [Key] Base REF b; };
 """
@@ -103,6 +104,9 @@ class Renderer:
         self.inc_path = os.path.join(workdir, "sub", "inc.mof") \
             if rng.random() < 0.3 else os.path.join(workdir, "inc.mof")
         self.upper = False
+        # the class declared by the nearest preceding class production of the
+        # text being rendered: (name, how an instance of it gets its keys)
+        self.prev = None
 
     # -- helpers -----------------------------------------------------------
     def nextkey(self):
@@ -138,6 +142,17 @@ class Renderer:
                 parts.append(gap)
             parts.append(t)
         return "".join(parts)
+
+    def anycase(self, name):
+        """The same name in another (or the same) lexical case."""
+        x = self.rng.random()
+        if x < 0.3:
+            return name
+        if x < 0.55:
+            return name.lower()
+        if x < 0.8:
+            return name.upper()
+        return name.swapcase()
 
     def incref(self, target, here):
         """Text of the include parameter naming file `target` from file
@@ -250,6 +265,7 @@ class Renderer:
         kw = self.kw
         name = "C%s" % tag
         sup = " : Base"
+        keymode = None
         head = '[Description("c%s")] ' % tag
         alias = ""
         sval = self.strval(v if d == "none" else "")
@@ -273,6 +289,11 @@ class Renderer:
             elif v == "assoc":
                 head, sup = "[Association] ", ""
                 body = "[Key] Base REF x; [Key] Base REF y;"
+            elif v == "sub_of_prev":
+                body = "string sub%s;" % tag
+                if self.prev:
+                    sup = " : %s" % self.prev[0]
+                    keymode = self.prev[1]
         elif d == "value":
             if v in self.BADVAL:
                 typ, isarr, val = self.BADVAL[v]
@@ -309,8 +330,14 @@ class Renderer:
                 body = '[EmbeddedInstance("Nope%s")] string e2;' % tag
             elif v == "super_in_searchpath":
                 sup = " : SP%s" % tag
+                keymode = "base"
                 self.write_sp("SP%s.mof" % tag,
                               "class SP%s : Base { string sp; };\n" % tag)
+            elif v == "super_self":
+                # the class names itself as its superclass; class names are
+                # case insensitive, so in any lexical case
+                sup = " : %s" % self.anycase(name)
+                keymode = "self"
             elif v == "super_cycle_searchpath":
                 sup = " : SPA%s" % tag
                 self.write_sp("SPA%s.mof" % tag,
@@ -324,6 +351,11 @@ class Renderer:
             elif op == "EnumerateQualifiers":
                 head = "[NopeQ%s] " % tag
             self.rule(p, name)
+        if keymode is None:
+            keymode = ("assoc" if head.startswith("[Association]") else
+                       "kk" if "kk;" in body else
+                       "base" if sup == " : Base" else "other")
+        self.prev = (name, keymode)
         return toks("%s%s %s%s%s { %s };" % (head, kw("class"), name, alias,
                                              sup, body))
 
@@ -345,6 +377,30 @@ class Renderer:
                 emb = 'instance of Base { k = 1; s = "e"; };'
                 self.embedded.append(emb)
                 props += ' e = "%s";' % emb.replace('"', '\\"')
+            elif v in ("emb_array_ok", "emb_array_one"):
+                n = 1 if v == "emb_array_one" else self.rng.randint(2, 4)
+                embs = ['instance of Base { k = %d; s = "e%d"; };' % (j, j)
+                        for j in range(1, n + 1)]
+                self.embedded.extend(embs)
+                props += ' ea = { %s };' % ", ".join(
+                    '"%s"' % e.replace('"', '\\"') for e in embs)
+            elif v == "of_prev":
+                name, keymode = self.prev or ("Types", "base")
+                cls = self.anycase(name) if self.rng.random() < 0.3 else name
+                if keymode == "assoc":
+                    pre = "%s %s Base %s $p%s { k = %d; };\n" % (
+                        kw("instance"), kw("of"), kw("as"), tag,
+                        self.nextkey())
+                    alias = ""
+                    props = "x = $p%s; y = $p%s;" % (tag, tag)
+                elif keymode == "kk":
+                    props = "kk = %d;" % (self.nextkey() % 250)
+                elif keymode == "base":
+                    props = 'k = %d; s = "of";' % self.nextkey()
+                else:
+                    # the class has no resolvable ancestry: the only elements
+                    # known are its own
+                    props = 's1 = "of";'
             elif v == "ref_alias":
                 pre = "%s %s Base %s $b%s { k = %d; };\n" % (
                     kw("instance"), kw("of"), kw("as"), tag, self.nextkey())
@@ -565,6 +621,7 @@ class Renderer:
     # -- files -------------------------------------------------------------------
     def render_file(self, prods, fileno, here):
         chunks = []
+        self.prev = None
         if self.rng.random() < 0.5:
             chunks.append(self.rng.choice(["\n", "// header\n", "\n\n",
                                            "/* h */ "]))
